@@ -58,8 +58,7 @@ def _models(ctx, jobs):
             z = vlib.zero_coverage(r, ("Silent",))      # the base configurations have no operation without atomic step
             if z:
                 raise vlib.HarnessError("%s: vacuous run, actions never taken: %s" % (what, z))
-        ctx.states += r.distinct
-        ctx.transitions += r.generated
+        ctx.count(states=r.distinct, transitions=r.generated)
         ctx.engines.append("%s: %d distinct states, %d transitions, depth %d, %.1fs" % (what, r.distinct, r.generated, r.depth, r.wall))
         vlib.log(ctx.engines[-1])
 
